@@ -1,6 +1,9 @@
 package h
 
-import "strings"
+import (
+	"sort"
+	"strings"
+)
 
 func mentionsBack(n any) bool {
 	switch x := n.(type) {
@@ -93,6 +96,20 @@ func checkC07(c Node) Verdict {
 			return fail("staged", v.SQL, append(sig, "staged"), "staged evaluation returns %s, composed %s", Canon(any(st.Rows)), Canon(any(want)))
 		}
 	}
+	// the names of CTEs are bound names: the case means the same with every CTE renamed - here to ordinary words that
+	// happen to be (non-reserved) keywords of the grammar
+	if ren := cteRenaming(q, c["doc"].(Node)); len(ren) > 0 {
+		sql := Style{}.Query(renameCtes(q, ren).(Node))
+		out := Run(FromTagged(c["doc"]).(map[string]any), sql, false)
+		v.Execs++
+		ok := out.Err == nil && out.Panic == nil && Equal(any(out.Rows), any(want))
+		if out.Err == nil && out.Panic == nil && (isJoin || ties) {
+			ok = BagEqual(out.Rows, want)
+		}
+		if !ok {
+			return fail("result", sql, append(sig, "cte-renamed"), "CTEs renamed: want %s got %s", Canon(any(want)), out.Describe())
+		}
+	}
 	if fam == "sub" {
 		// select-list subquery standalone on each kept row (only without <-)
 		sel := seq(q["sel"])
@@ -119,3 +136,102 @@ func checkC07(c Node) Verdict {
 }
 
 func init() { Replay["C07"] = checkC07 }
+
+// cteRenaming maps every CTE name of a query to a keyword-like word; empty when there is no CTE or when a CTE shares
+// its name with a table of the document (renaming would then change what unscoped references mean).
+func cteRenaming(q Node, doc Node) map[string]string {
+	names := map[string]bool{}
+	var walk func(v any)
+	walk = func(v any) {
+		switch x := v.(type) {
+		case []any:
+			for _, e := range x {
+				walk(e)
+			}
+		case map[string]any:
+			if w, ok := x["with"].([]any); ok {
+				for _, c := range w {
+					names[c.(Node)["name"].(string)] = true
+				}
+			}
+			for _, e := range x {
+				walk(e)
+			}
+		}
+	}
+	walk(q)
+	top, _ := FromTagged(doc).(map[string]any)
+	sorted := []string{}
+	for n := range names {
+		if _, clash := top[n]; clash {
+			return nil
+		}
+		sorted = append(sorted, n)
+	}
+	sort.Strings(sorted)
+	words := []string{"status", "first", "data", "names", "last"}
+	ren := map[string]string{}
+	for i, n := range sorted {
+		if i >= len(words) {
+			return nil
+		}
+		ren[n] = words[i]
+	}
+	return ren
+}
+
+// renameCtes renames CTE definitions and the references to them: the first name of a FROM path (behind any <- steps)
+// and the first key of a path selector.
+func renameCtes(v any, ren map[string]string) any {
+	switch t := v.(type) {
+	case map[string]any:
+		out := Node{}
+		for k, x := range t {
+			out[k] = renameCtes(x, ren)
+		}
+		if w, ok := t["with"].([]any); ok {
+			nw := make([]any, len(w))
+			for i, c := range w {
+				cn := renameCtes(c, ren).(Node)
+				if n, ok := ren[cn["name"].(string)]; ok {
+					cn["name"] = n
+				}
+				nw[i] = cn
+			}
+			out["with"] = nw
+		}
+		if t["k"] == "table" {
+			p := append([]any{}, seq(t["p"])...)
+			for i, s := range p {
+				if s == "<-" {
+					continue
+				}
+				if n, ok := ren[s.(string)]; ok {
+					p[i] = n
+				}
+				break
+			}
+			out["p"] = p
+		}
+		if t["k"] == "sel" {
+			for _, s := range seq(out["sel"]) {
+				steps := seq(s.(Node)["steps"])
+				if len(steps) > 0 {
+					if st := steps[0].(Node); st["k"] == "key" {
+						if n, ok := ren[st["name"].(string)]; ok {
+							st["name"] = n
+						}
+					}
+				}
+			}
+		}
+		return out
+	case []any:
+		out := make([]any, len(t))
+		for i, x := range t {
+			out[i] = renameCtes(x, ren)
+		}
+		return out
+	}
+	return v
+}
